@@ -49,9 +49,24 @@ def seed_case(draw, tier):
             "pre_seed": draw(st.integers(0, 2**31 - 1))}
 
 
-def call_fn(case, seed):
+PARAM_FORMS = ["python", "python", "float64", "array0d", "array0d"]
+
+
+def params_for(case):
+    """the scalar parameters of the model as Python floats, numpy scalars or 0-d arrays (what np.load / HDF5 / squeeze()
+    hand back) - ONE set of objects per case, passed to every call of the case and looked at again afterwards"""
+    form = PARAM_FORMS[(3 * case["shape"][0] + case["shape"][1] + case["seed2"]) % len(PARAM_FORMS)]
+    raw = {"level": case["level"], "sigma": case["sigma"], "fpn": case["fpn"], "temp": 120.0, "cutoff": 5e-6, "pitch": 18e-6,
+           "pixelscale": 1e-3, "rms": 5e-8, "half_power_freq": 8.0, "exp": 3.0}
+    conv = {"python": float, "float64": np.float64, "array0d": lambda v: np.array(float(v))}[form]
+    return {k: conv(v) for k, v in raw.items()}, raw, form
+
+
+def call_fn(case, seed, P=None):
     shape = tuple(case["shape"])
     fn = case["fn"]
+    if P is None:
+        P = params_for(case)[0]
     # the seed as a Python int or as a numpy integer scalar (same value)
     if seed < 2**32:
         seed = gen.typed_scalar(seed, ["python", "python", "int64", "uint32", "uint64"][(case["shape"][0] + case["shape"][1]) % 5])
@@ -60,14 +75,14 @@ def call_fn(case, seed):
     if fn == "shot_gaussian":
         return detector.shot_noise(np.full(shape, case["level"]), method="gaussian", seed=seed)
     if fn == "read_noise":
-        return detector.read_noise(np.zeros(shape), case["sigma"], seed=seed)
+        return detector.read_noise(np.zeros(shape), P["sigma"], seed=seed)
     if fn == "dark_current":
-        return detector.dark_current(case["level"], shape, fpn_factor=case["fpn"], seed=seed)
+        return detector.dark_current(P["level"], shape, fpn_factor=P["fpn"], seed=seed)
     if fn == "rule07":
-        return detector.rule07_dark_current(120.0, 5e-6, 18e-6, shape, fpn_factor=case["fpn"], seed=seed)
+        return detector.rule07_dark_current(P["temp"], P["cutoff"], P["pitch"], shape, fpn_factor=P["fpn"], seed=seed)
     m = np.ones(shape)
     m[0, 0] = 0
-    return lentil.power_spectrum(m, 1e-3, 5e-8, 8.0, 3.0, seed=seed)
+    return lentil.power_spectrum(m, P["pixelscale"], P["rms"], P["half_power_freq"], P["exp"], seed=seed)
 
 
 @hyp("C18", "seeded", lambda tier: seed_case(tier),
@@ -76,17 +91,19 @@ def call_fn(case, seed):
 def seeded(case, ctx):
     ctx.tag("fn:" + case["fn"], "nonsquare" if case["shape"][0] != case["shape"][1] else "square", "seed:0" if case["seed"] == 0 else None)
     ctx.nontrivial_if(case["shape"][0] * case["shape"][1] >= 16)
+    P, raw, pform = params_for(case)
+    ctx.tag("param_form:" + pform)
     np.random.seed(case["pre_seed"])
     random.seed(case["pre_seed"])
     before = rng_states()
     with lentil_call("C18.seeded", case["fn"]):
-        a = np.asarray(call_fn(case, case["seed"]))
+        a = np.asarray(call_fn(case, case["seed"], P))
     after = rng_states()
     if not states_equal(before, after):
         raise Violation("C18.seeded.global_state", f"{case['fn']}(seed=...) advanced the global random state")
     np.random.seed(case["pre_seed"] + 1)          # a different global state must not matter
     with lentil_call("C18.seeded", case["fn"] + " (repeat)"):
-        b = np.asarray(call_fn(case, case["seed"]))
+        b = np.asarray(call_fn(case, case["seed"], P))
     if a.shape != tuple(case["shape"]):
         raise Violation("C18.seeded.shape", f"{case['fn']} returned shape {a.shape} for {tuple(case['shape'])}")
     if not np.array_equal(a, b):
@@ -103,13 +120,17 @@ def seeded(case, ctx):
         frames = {s0: a}
         with lentil_call("C18.seeded", case["fn"] + " (other seeds)"):
             for sd in family[1:]:
-                frames[sd] = np.asarray(call_fn(case, sd))
+                frames[sd] = np.asarray(call_fn(case, sd, P))
         for i, si in enumerate(family):
             for sj in family[i + 1:]:
                 if np.array_equal(frames[si], frames[sj]):
                     raise Violation("C18.seeded.seed_ignored", f"{case['fn']}: seeds {si} and {sj} gave the same frame")
     if not np.all(np.isfinite(a)):
         raise Violation("C18.seeded.finite", f"{case['fn']} returned non-finite values")
+    changed = [k for k, v in raw.items() if float(P[k]) != float(v)]
+    if changed:
+        raise Violation("C18.seeded.parameter_mutated", f"{case['fn']} changed the caller's parameter object(s) {changed} "
+                                                        f"(given as {pform}): {[(float(P[k]), raw[k]) for k in changed]}")
 
 
 # --- shot noise ----------------------------------------------------------------------------------------------
